@@ -34,6 +34,8 @@ class Server:
         self.noidle_inside_idle_reply = False
         self.known_lines = None
         self.barriers = []           # absolute stream offsets at which a delivery ends even without a line feed
+        self.ack_next_idle = False
+        self.idle_acked = False
         t.on_write = self.on_write
     def send(self, data):
         self.t.stream.extend(data)
@@ -56,6 +58,12 @@ class Server:
     def handle(self, line):
         self.lines.append(line)
         undelivered = self.t.pos < len(self.t.stream)
+        if line == b'idle' and self.ack_next_idle:
+            # the server refuses this idle (e.g. a permission error): an error response, no idling
+            self.ack_next_idle = False
+            self.idle_acked = True
+            self.send(b'ACK [4@0] {idle} you do not have permission for idle\n')
+            return
         if line == b'idle':
             if self.idle:
                 self.violations.append('idle while already idling')
@@ -290,8 +298,8 @@ class Session:
         lim = self.t.limit if self.t.limit is not None else len(self.t.stream)
         return len(self.t.stream) - lim
 
-    def deliver(self, partial=False):
-        """release the next line (or the first half of it) of server output to the client"""
+    def deliver(self, partial=False, cut=None):
+        """release the next line (or the first half of it, or its first `cut` bytes) of server output to the client"""
         t = self.t
         lim = t.limit
         rest = t.stream[lim:]
@@ -303,6 +311,8 @@ class Session:
             e = len(rest)
         if partial and e > 1:
             e = max(1, e // 2)
+        if cut is not None:
+            e = max(1, min(e, cut))
         for b in list(self.server.barriers):
             if lim < b < lim + e:
                 e = b - lim
@@ -310,7 +320,7 @@ class Session:
                 break
         t.limit = lim + e
         self.mark_dirty()
-        self.steps.append('deliver%s' % ('/2' if partial else ''))
+        self.steps.append('deliver%s' % ('/2' if partial else ('@%d' % cut if cut is not None else '')))
 
     def change(self, name):
         self.server.change(name)
@@ -326,6 +336,14 @@ class Session:
         world(self.I).clock += 60_000
         self.mark_dirty()
         self.steps.append('longtick')
+
+    def drop_events(self):
+        """the user drops the ConnectionEvents receiver (allowed by the API)"""
+        if self.ev_rx is not None:
+            self.I.drop_value(self.ev_rx)
+            self.ev_rx = None
+        self.mark_dirty()
+        self.steps.append('dropevents')
 
     def drop_client(self, k=0):
         c = self.clients.pop(k)
@@ -355,6 +373,8 @@ class Session:
             t.fail_read_at = t.pos
         elif kind == 'write_error':
             t.fail_write_at = len(t.writes)
+        elif kind == 'idleack':
+            self.server.ack_next_idle = True
         elif kind == 'garbage':
             lim = t.limit if t.limit is not None else len(t.stream)
             t.stream[lim:lim] = list(b'\x01 junk\n')
@@ -401,6 +421,16 @@ class Session:
             acts.append(('deliver',))
             if budget.get('partial', 0) > 0:
                 acts.append(('deliver2',))
+            if budget.get('cutat', 0) > 0:
+                rest = self.t.stream[self.t.limit:]
+                try:
+                    ln = rest.index(10) + 1
+                except ValueError:
+                    ln = len(rest)
+                for n in range(1, ln):
+                    acts.append(('cutat', n))
+        if budget.get('dropevents', 0) > 0 and self.ev_rx is not None:
+            acts.append(('dropevents',))
         if budget.get('change', 0) > 0:
             acts.append(('change',))
         if budget.get('tick', 0) > 0:
@@ -425,6 +455,8 @@ class Session:
         elif k == 'cancel': budget['cancel'] -= 1; self.cancel(act[1])
         elif k == 'deliver': self.deliver()
         elif k == 'deliver2': budget['partial'] -= 1; self.deliver(partial=True)
+        elif k == 'cutat': budget['cutat'] -= 1; self.deliver(cut=act[1])
+        elif k == 'dropevents': budget['dropevents'] -= 1; self.drop_events()
         elif k == 'change':
             names = budget.get('names', [b'player', b'mixer', b'foo'])
             n = names[budget.get('nchanged', 0) % len(names)]
